@@ -40,7 +40,7 @@ Proof.
   intros o L md5 Hmd p rate bps wo ch total w chunks e rp Hwf Hnew Hfit W written HW Hlen Htot.
   destruct (sample_writer_lossless o L md5 Hmd p rate bps wo ch total w chunks Hwf Hnew Hfit HW Hlen Htot) as (f & _ & Hrun & _ & _).
   destruct (e2e_sample_pcm o L md5 Hmd p rate bps wo ch total w chunks f Hwf Hnew Hrun Hfit Hlen)
-    as (blocks & Hdec & Hcat & Hok & Hshape & Htotal & Hsc & Hlt).
+    as (blocks & Hdec & Hcat & Hok & Hshape & Htotal & Hsc & Hlt & _).
   exists f, blocks. split; [exact Hrun|]. split; [exact Hdec|]. cbv zeta.
   assert (Hb : 1 <= bps /\ bps <= 32).
   { pose proof Hnew as H. unfold sample_new in H. apply bind_ok in H. destruct H as (bps' & Hbp & _).
